@@ -107,14 +107,22 @@ theorem credited_exactly {s : St} {c r : Nat} {ra : Ra} (hs : Reachable s) (hc :
       (∀ x, getBal ra'.bal x = creditedTo ra.gi.accounts x) ∧
       sumAccs d.gi.accounts = sumAccs ra.gi.accounts ∧
       (∀ t, d.tr = some t → t.amt = sumAccs ra.gi.accounts ∧ t.recv = 0) ∧
-      ra'.md = ra.gi.denom.isSet ∧ ra'.tph = ph ∧ ra'.nOpen = 1 ∧ ra'.gi = ra.gi ∧
+      (ra'.md = (ra.md || ra.gi.denom.isSet) ∧ (ra.gi.denom.isSet = true → ra.md = false ∧ ra'.md = true)) ∧
+      ra'.tph = ph ∧ ra'.nOpen = 1 ∧ ra'.gi = ra.gi ∧
       (∀ alloc st, ra.plan = some (alloc, st) → ra'.plan = some (alloc, true) ∧ creditedTo ra.gi.accounts iroAddr = alloc) := by
   rcases recv_closed_cases hs hc hg h0 ph p with ⟨h1, e, he⟩ | ⟨h1, d, bal', hp, hv, hcr, hra, hpl⟩
   · rw [h1, he] at hok; exact absurd hok (by simp)
   · have hi := (reachable_inv hs).get hg
     have hm := validate_matches hi.wf hv
     have ht := (closed_iff hs hg).1 h0
-    obtain ⟨hbal, hmd, _, _⟩ := hi.closed ht
+    obtain ⟨hbal, _, _, _⟩ := hi.closed ht
+    have hhs : (handshake ra ph p).2 = .ok := by
+      apply Classical.byContradiction
+      intro hne
+      have h' := handshake_err_unchanged hne
+      rw [hra] at h'
+      have h'' := congrArg Ra.nOpen h'
+      simp at h''
     have hid : (handshake ra ph p).1.id = ra.id := by rw [hra]
     have hrid : ra.id = r := (getRa_mem hg).2
     have hget : getRa (step s (.recv c ph p)).1 r = some (handshake ra ph p).1 := by
@@ -132,7 +140,12 @@ theorem credited_exactly {s : St} {c r : Nat} {ra : Ra} (hs : Reachable s) (hc :
       have := hm.2.2.2.2.2
       rw [ht'] at this
       exact ⟨this.2.2.2, this.2.1⟩
-    · rw [hra]; simp [hmd, hm.2.2.1]
+    · refine ⟨by rw [hra]; simp [hm.2.2.1], ?_⟩
+      intro hd
+      have hmd : ra.md = false := by
+        rw [hp] at hhs
+        exact handshake_ok_md hhs (by rw [hm.2.2.1]; exact hd)
+      exact ⟨hmd, by rw [hra]; simp [hm.2.2.1, hd]⟩
     · rw [hra]
     · rw [hra]; simp [h0]
     · rw [hra]
@@ -303,6 +316,21 @@ theorem gi_step (s : St) (op : Op) (r : Nat) (ra : Ra) (hg : getRa s r = some ra
     all_goals exact keep
   | canon r0 =>
     simp only [step, stepCanon]
+    cases hr0 : getRa s r0 with
+    | none => exact keep
+    | some ra0 =>
+      simp only
+      repeat' split
+      all_goals first
+        | exact keep
+        | (refine upd r0 ra0 _ hr0 rfl ?_
+           intro hr
+           subst hr
+           rw [hg] at hr0
+           cases hr0
+           left; rfl)
+  | premd r0 =>
+    simp only [step, stepPremd]
     cases hr0 : getRa s r0 with
     | none => exact keep
     | some ra0 =>
